@@ -1,6 +1,6 @@
 //! unit: u18l
 //! properties: C18
-//! note: BOLT-11 fixed-length fields (lightning-invoice de.rs, the parsers of payment hash `p`, payment secret `s`, description hash `h` and payee key `n`, whole): a p, s or h field is read only with a data length of exactly 52 symbols and an n field only with 53 - BOLT 11: "a reader MUST skip over ... a p, h, s or n field that does not have data_length 52, 52, 52 or 53" - so a field of any other length is answered with one of the errors parse_tagged_parts (u18h) turns into "unknown field, kept verbatim", never with a value and never by refusing the invoice; with the right length the 32 (33) bytes the symbols decode to are the value, and LDK's `expect("length was checked before")` on the hash conversion cannot fail
+//! note: (and the signature: `impl FromBase32 for Bolt11InvoiceSignature`, whole: exactly 104 symbols, 64 bytes of signature followed by the recovery id) BOLT-11 fixed-length fields (lightning-invoice de.rs, the parsers of payment hash `p`, payment secret `s`, description hash `h` and payee key `n`, whole): a p, s or h field is read only with a data length of exactly 52 symbols and an n field only with 53 - BOLT 11: "a reader MUST skip over ... a p, h, s or n field that does not have data_length 52, 52, 52 or 53" - so a field of any other length is answered with one of the errors parse_tagged_parts (u18h) turns into "unknown field, kept verbatim", never with a value and never by refusing the invoice; with the right length the 32 (33) bytes the symbols decode to are the value, and LDK's `expect("length was checked before")` on the hash conversion cannot fail
 //! trusted: R5: `<[u8; N]>::from_base32(X)` is an external_body stub: an uninterpreted function of the symbols that returns N bytes or refuses (the 5-to-8 bit regrouping is the Kani harness's business); sha256::Hash::from_slice REQUIRES 32 bytes (it fails otherwise: the `expect` of the source); PublicKey::from_slice any function of its bytes; the `?` on a secp error is the error's conversion (opaque)
 //! trusted: assume_specification for core::cmp::max / core::cmp::min (std definitions): present in every unit so that a change that introduces them is verified instead of being rejected by the tool
 use vstd::prelude::*;
@@ -90,6 +90,38 @@ impl PayeePubKey {
     if field_data.len() != 53 {
 //@with
     if field_data.len() != 52 {
+//@end
+}
+// the signature field: 104 symbols = 65 bytes, the first 64 the compact signature, the last the recovery id
+pub uninterp spec fn bytes65(f: Seq<Fe32>) -> Option<Seq<u8>>;
+#[verifier::external_body] pub fn arr65_from_base32(data: &[Fe32]) -> (r: Result<[u8; 65], Bolt11ParseError>) ensures (r is Ok) == (bytes65(data@) is Some), r is Ok ==> Some(r->Ok_0@) == bytes65(data@) { unimplemented!() }
+pub struct RecoveryId { pub v: Ghost<int> }
+impl RecoveryId { #[verifier::external_body] pub fn from_i32(id: i32) -> (r: Result<RecoveryId, Bolt11ParseError>) ensures r is Ok ==> r->Ok_0.v@ == id as int { unimplemented!() } }
+pub struct RecoverableSignature { pub sig: Ghost<Seq<u8>>, pub rid: Ghost<int> }
+impl RecoverableSignature { #[verifier::external_body] pub fn from_compact(data: &[u8], recid: RecoveryId) -> (r: Result<RecoverableSignature, Bolt11ParseError>) ensures r is Ok ==> r->Ok_0.sig@ == data@ && r->Ok_0.rid@ == recid.v@ { unimplemented!() } }
+pub struct Bolt11InvoiceSignature(pub RecoverableSignature);
+impl Bolt11InvoiceSignature {
+//@extract lightning-invoice/src/de.rs :: impl FromBase32 for Bolt11InvoiceSignature :: fn from_base32
+//@rw R5
+    <[u8; 65]>::from_base32(signature)
+//@with
+    arr65_from_base32(signature)
+//@rw R5
+    Result<Self, Self::Err>
+//@with
+    Result<Self, Bolt11ParseError>
+//@rw R5
+    &recoverable_signature_bytes[0..64]
+//@with
+    vstd::slice::slice_subrange(recoverable_signature_bytes.as_slice(), 0, 64)
+//@ret r
+//@ensures P C18 the-signature-field-is-read-only-with-104-symbols-its-first-64-bytes-are-the-signature-and-the-65th-the-recovery-id
+    r is Ok ==> signature@.len() == 104 && bytes65(signature@) is Some && r->Ok_0.0.sig@ =~= bytes65(signature@)->Some_0.subrange(0, 64) && r->Ok_0.0.rid@ == bytes65(signature@)->Some_0[64] as int,
+    signature@.len() != 104 ==> r is Err,
+//@mutant recovery_id_read_from_the_last_signature_byte
+    RecoveryId::from_i32(recoverable_signature_bytes[64] as i32)
+//@with
+    RecoveryId::from_i32(recoverable_signature_bytes[63] as i32)
 //@end
 }
 }
